@@ -491,6 +491,22 @@ func (e *Env) runJob(ctx context.Context, op *Op) (int, error) {
 
 // Exec runs one operation against the real system and fills in response and oracles.
 func (e *Env) Exec(ctx context.Context, op *Op, pre *Dump) (*Obs, error) {
+	o, err := e.execNoDump(ctx, op, pre)
+	if err != nil {
+		return nil, err
+	}
+	post, derr := e.Dump(ctx)
+	if derr != nil {
+		return nil, derr
+	}
+	o.Post = post
+	fillOracles(op, o.Resp, pre, post, o.Lo)
+	return o, nil
+}
+
+// execNoDump runs the operation and records the response; the caller takes the post-dump
+// (with a context of its own: the operation's context may have been cancelled on purpose)
+func (e *Env) execNoDump(ctx context.Context, op *Op, pre *Dump) (*Obs, error) {
 	o := &Obs{Op: op}
 	var resp *Resp
 	var err error
@@ -699,12 +715,6 @@ func (e *Env) Exec(ctx context.Context, op *Op, pre *Dump) (*Obs, error) {
 		}
 	}
 	o.Resp = resp
-	post, derr := e.Dump(ctx)
-	if derr != nil {
-		return nil, derr
-	}
-	o.Post = post
-	fillOracles(op, resp, pre, post, o.Lo)
 	return o, nil
 }
 
